@@ -74,6 +74,7 @@ def run(ck):
     wit = rulebase.witness_cases(ck, "C01")
     for c in cases:
         c["otrees"] = True      # the optimised trees themselves are part of the compared line
+        c["trees"] = True       # ... and the loaded ones
     allc = cases + wit
     send = rulebase.wire(allc)
     impl, model, _ = lib.run_cases(send, "C01", runner_args=["--known"])
